@@ -9,14 +9,33 @@ fn main() {
         let mut seed: u64 = args.get(4).map(|s| s.parse().unwrap()).unwrap_or(1);
         let names: Vec<&str> = if args[2] == "all" { HARNESSES.to_vec() } else { vec![args[2].as_str()] };
         let mut failed = 0;
+        let trace = std::env::var("VERIF_FUZZ_TRACE").ok();
         std::panic::set_hook(Box::new(|_| {}));
         for name in names {
             let mut nonvac = 0u64;
-            for _ in 0..runs {
+            for run_no in 0..runs {
                 let mut bytes = Vec::with_capacity(96);
-                for _ in 0..96 { seed ^= seed << 13; seed ^= seed >> 7; seed ^= seed << 17; let b = (seed >> 24) as u8; 
-                    // bias towards boundary bytes
-                    bytes.push(match (seed >> 40) % 8 { 0 => 0, 1 => 0xff, 2 => (b % 130), _ => b }); }
+                // two generators, alternating: (even runs) independent bytes biased towards boundary values;
+                // (odd runs) RUNS of 1..16 equal-class bytes (all 0x00 / all 0xff / random / repeated previous word),
+                // so that whole words are 0, MAX or equal to the other operand's word with useful probability
+                // (carry/borrow chains, equal-word comparisons)
+                let runmode = run_no % 2 == 1;
+                let (mut left, mut class) = (0u32, 0u64);
+                for k in 0..96usize { seed ^= seed << 13; seed ^= seed >> 7; seed ^= seed << 17; let b = (seed >> 24) as u8;
+                    if !runmode {
+                        bytes.push(match (seed >> 40) % 8 { 0 => 0, 1 => 0xff, 2 => (b % 130), _ => b });
+                    } else {
+                        if left == 0 { class = (seed >> 33) % 6; left = [1u32, 2, 4, 8, 8, 16, 3, 7][((seed >> 45) % 8) as usize]; }
+                        left -= 1;
+                        bytes.push(match class { 0 => 0, 1 => 0xff, 2 if k >= 8 => bytes[k - 8], 3 if k >= 16 => bytes[k - 16], 4 => b % 130, _ => b });
+                    }
+                }
+                // when asked (second pass after an abnormal exit: abort, stack overflow, allocation failure), record the
+                // input about to be run so that the parent can recover the one that killed the process
+                if let Some(path) = &trace {
+                    let hex: String = bytes.iter().map(|b| format!("{:02x}", b)).collect();
+                    let _ = std::fs::write(path, format!("{} {}", name, hex));
+                }
                 let mut src = VecSrc::new(bytes.clone());
                 let n2 = name.to_string();
                 let res = std::panic::catch_unwind(std::panic::AssertUnwindSafe(|| { run_named(&n2, &mut src); src.vacuous }));
